@@ -10,6 +10,7 @@ def run(res, work, tier, seed):
     vlib.tallycore(work, res, "C07: <sub,inc,close,sub,inc> || pass", deadlock=True, **BASE)
     vlib.tallycore(work, res, "DevDeleteByKey", expect="Conservation", **dict(BASE, DevDeleteByKey="TRUE"))
     vlib.tallycore(work, res, "DevClosedAfterReport", expect="Conservation", **dict(BASE, DevClosedAfterReport="TRUE"))
+    registry_keys(res, work, tier)
     if tier == "thorough":
         vlib.tallycore(work, res, "C07: two goroutines cycling on one identity || pass (4.7M states)", deadlock=True, timeout=3000,
                        Script="ScriptC07b", Apps='{"a1","a2"}', Passers='{"p1"}', NObj=4)
@@ -20,9 +21,22 @@ def run(res, work, tier, seed):
                 "(RUnlock / Lock / delete / re-RLock), the closed-flag read, the lookup and insert of Subscope (quick: reduced point set, exhaustive; "
                 "thorough: all registry / metric-lock points, ~250k schedules) for one goroutine cycling obtain / record / Close / obtain / record against a "
                 "report pass and against the real report loop; seeded random schedules over all points for three goroutines (same identity, tagged identity, "
-                "child of a closed scope, double Close) with loop and explicit passes, 2 shards. Per counter identity: promised <= delivered <= incremented at "
+                "child of a closed scope, double Close) with loop and explicit passes, 2 shards; the same cycles on a root whose sanitizer rewrites the tags "
+                "(the scope is registered under two keys): DFS over the operations against two passes, random schedules for two goroutines. Per counter identity: promised <= delivered <= incremented at "
                 "quiescence, never ahead at any step, no scope handed out that was closed before the request, no panic, no deadlock.")
     res.assumptions += [
         "an increment is 'promised' when it returned before Close of its scope object (or of the root) was called",
         "Go's writer-preferring RWMutex is not reproduced by gated schedules (a goroutine is only released into Lock when it is free); lock order is checked in the model",
     ]
+
+
+def registry_keys(res, work, tier):
+    """RegistryKeys.tla: the two registry keys of a scope whose tags the sanitizer rewrites (TallyCore has one key per scope)."""
+    def cfg(name, **ov):
+        ov = {k: ("TRUE" if v is True else "FALSE" if v is False else v) for k, v in ov.items()}
+        return vlib.write_cfg(work, name, "RegistryKeys.cfg", ov)
+    vlib.mc_expect_ok(work, "MCRegistryKeys.tla", cfg("rk1.cfg"), "RegistryKeys: <tagged,inc,close,tagged,inc,inc> || pass || pass, scope registered under its unsanitized and its sanitized key", res, timeout=1500)
+    vlib.mc_expect_ok(work, "MCRegistryKeys.tla", cfg("rk2.cfg", Apps='{"a1", "a2"}', Passes='{"p1"}', Script="MCScript2", MaxObj=4 if tier == "thorough" else 3),
+                      "RegistryKeys: two goroutines cycling on the identity || pass", res, timeout=3000)
+    for w, inv in [("DevNoClosedCheckUnderWriteLock", "ReacquireFresh"), ("DevDeleteByKey", "Conservation"), ("WeakNoReportOnReacquire", "Conservation")]:
+        vlib.mc_expect_violation(work, "MCRegistryKeys.tla", cfg("rk_%s.cfg" % w, **{w: True}), inv, "RegistryKeys " + w, res, timeout=600)
